@@ -77,12 +77,14 @@ type Spec struct {
 	NativePrepare func(p *Prog, o *Obs) (*Prog, error)
 	SimCfg        map[string]any
 	Generate      func(seed int64, i int) *Prog
-	Judge         func(p *Prog, o *Obs) *Verdict
-	KnownMatch    func(kf *known.File, p *Prog, v *Verdict) string
-	Rule          string
-	Assumptions   []string
-	Real, Stub    []string
-	MaxShrink     int
+	// Curated programs (hand-written, under /verif/workloads/curated) are evaluated before the generated ones.
+	Curated     []*Prog
+	Judge       func(p *Prog, o *Obs) *Verdict
+	KnownMatch  func(kf *known.File, p *Prog, v *Verdict) string
+	Rule        string
+	Assumptions []string
+	Real, Stub  []string
+	MaxShrink   int
 }
 
 type Engine struct {
@@ -299,8 +301,8 @@ func RunCollect(spec Spec) (int, *evidence.Evidence) {
 	var infra error
 	var samples []any
 
-	idx := make(chan int, spec.Cases)
-	for i := 0; i < spec.Cases; i++ {
+	idx := make(chan int, spec.Cases+len(spec.Curated))
+	for i := -len(spec.Curated); i < spec.Cases; i++ {
 		idx <- i
 	}
 	close(idx)
@@ -321,7 +323,13 @@ func RunCollect(spec Spec) (int, *evidence.Evidence) {
 				if stop {
 					continue
 				}
-				p := spec.Generate(spec.Seed, i)
+				var p *Prog
+				if i < 0 {
+					p = spec.Curated[-i-1]
+					counters.Add("curated_programs", 1)
+				} else {
+					p = spec.Generate(spec.Seed, i)
+				}
 				if p == nil {
 					counters.Add("cases_discarded", 1)
 					continue
@@ -679,4 +687,25 @@ func Replay(spec Spec, rp *evidence.Replay) int {
 	}
 	fmt.Printf("VIOLATION property=%s replay=%s\n", rp.Property, os.Getenv("VERIF_REPLAY_PATH"))
 	return 1
+}
+
+// LoadCurated reads a hand-written program from /verif/workloads/curated/<name>.
+func LoadCurated(name, lib string) (*Prog, error) {
+	dir := filepath.Join(jbuild.VerifDir(), "workloads", "curated", name)
+	p := &Prog{Files: map[string]string{}, Lib: lib, Clean: true, Features: []string{"curated:" + name}}
+	ents, err := os.ReadDir(dir)
+	if err != nil {
+		return nil, err
+	}
+	for _, e := range ents {
+		if e.IsDir() {
+			continue
+		}
+		b, err := os.ReadFile(filepath.Join(dir, e.Name()))
+		if err != nil {
+			return nil, err
+		}
+		p.Files[e.Name()] = string(b)
+	}
+	return p, nil
 }
